@@ -396,6 +396,35 @@ pub fn run(ctx: &mut Ctx) {
         emit_conn(ctx, &procs, &C1, &ds);
     }
 
+    // 4b. the cap bounds what is *stored*: segments beyond a gap that is never filled, and one segment
+    //     retransmitted over and over, exhaust the 64 KiB and the direction is abandoned
+    {
+        let chunk = vec![b'y'; 1400];
+        let mut ds = vec![];
+        let mut seq = C1.isn_c.wrapping_add(1).wrapping_add(5000); // bytes 0..5000 never arrive
+        for _ in 0..48 {
+            ds.push(Data { from_client: true, seq, flags: 0x18, payload: chunk.clone() });
+            seq = seq.wrapping_add(1400);
+        }
+        ds.extend(segments(req0, &[], C1.isn_c, true)); // the head arrives after the direction was given up
+        ds.extend(segments(res0, &[], C1.isn_s, false));
+        emit_conn(ctx, &procs, &C1, &ds);
+        let first = segments(req0, &[10], C1.isn_c, true);
+        let mut ds = vec![];
+        for _ in 0..(65536 / 10 + 2) {
+            ds.push(first[0].clone()); // the same 10 bytes again and again
+        }
+        ds.push(first[1].clone());
+        emit_conn(ctx, &procs, &C1, &ds);
+        // just below the bound: 40 KiB of retransmissions, then the rest of the head is still reported
+        let mut ds = vec![];
+        for _ in 0..4000 {
+            ds.push(first[0].clone());
+        }
+        ds.push(first[1].clone());
+        emit_conn(ctx, &procs, &C1, &ds);
+    }
+
     // 5. arbitrary packet sequences: several flows, FIN/RST, missing or repeated SYN, SYN with payload,
     //    reverse-direction first, same-endpoint tuples
     let n = ctx.n(1200, 20000);
